@@ -1,5 +1,3 @@
-//go:build elinwip
-
 package props
 
 import (
